@@ -35,7 +35,9 @@ impl<K: Eq + Hash + Clone> ArcState<K> {
   // Called when the cache is full and a new item needs to be admitted.
   fn replace(&mut self, capacity: u64, key_in_b2: bool) -> Option<(K, u64)> {
     let t1_cost = self.t1.current_total_cost();
-    if t1_cost > 0 && (t1_cost >= self.p || (key_in_b2 && t1_cost == self.p)) {
+    let prefer_t1 = t1_cost > 0 && (t1_cost >= self.p || (key_in_b2 && t1_cost == self.p));
+    // Never come back empty-handed while T1 still holds a victim: T2 may be empty.
+    if prefer_t1 || self.t2.tail.is_none() {
       if let Some((key, cost)) = self.t1.pop_back() {
         self.b1.push_front(key.clone(), cost);
         if self.b1.current_total_cost() > capacity {
